@@ -520,6 +520,13 @@ def norm(t: str) -> str:
         h, tl = destruct(nargs[0]), destruct(destruct(nargs[1])[1][0])
         if h[0] == "idx" and len(h[1]) == 2 and h[1][1] == "0" and tl[0] == "slice" and len(tl[1]) == 4 and tl[1][0] == h[1][0] and tl[1][1:] == ("1", "", ""):
             return T("copy", h[1][0])
+    if op == "add" and len(nargs) == 2:
+        # [X[0]] + X[1:]  is the same fresh copy
+        l_, tl = destruct(nargs[0]), destruct(nargs[1])
+        if l_[0] == "list" and len(l_[1]) == 1 and tl[0] == "slice" and len(tl[1]) == 4 and tl[1][1:] == ("1", "", ""):
+            h = destruct(l_[1][0])
+            if h[0] == "idx" and len(h[1]) == 2 and h[1][1] == "0" and h[1][0] == tl[1][0]:
+                return T("copy", h[1][0])
     parts = None
     if op == "format" and nargs and _is_strconst(nargs[0]) and isinstance(destruct(nargs[0])[1], str) and not any("=" in a.split("(", 1)[0] and not a.startswith(("'", '"')) for a in nargs[1:]):
         # "..{}..{}..".format(a, b)  ==  f"..{a}..{b}.."   (automatic or explicit positional fields without spec/conversion)
